@@ -11,6 +11,7 @@ python3 tools/gen_lspspec.py
 python3 tools/gen_lspspec_main.py
 python3 tools/gen_lspspec_completion.py
 python3 tools/gen_lspspec_init.py
+python3 tools/gen_lspspec_dispatch.py
 cp /repo/Cargo.lock replay/Cargo.lock
 ( cd replay && CARGO_TARGET_DIR=../build/replay-target cargo build --offline --quiet )
 # the server binary for handler-level (stdio JSON-RPC) replays
